@@ -172,6 +172,44 @@ def forbidden_seq(i: int, dialect: int, k: int, ctx: int) -> bool:
             return False
 
 
+DIALECT_WORDS = ['NetworkAddress', 'Counter', 'Gauge', 'ACCESS', 'TRAP-TYPE', 'Integer32', 'OBJECT-TYPE', 'MyType', 'ACCESSX']
+
+
+def dialect_words(i: int, dialect: int, warm: int) -> bool:
+    """
+    requires: 0 <= i < len(DIALECT_WORDS) and 0 <= dialect <= 2 and 0 <= warm <= 2
+    """
+    # the keyword tables of the three dialects are separate objects: building (and using) the lexer of one dialect first must
+    # not change how another dialect types a word. Untouched real lexers, concrete text; the expected token types are
+    # written down here. NetworkAddress is an ordinary type name for the strict SMIv2 lexer and a keyword for the SMIv1 ones.
+    w = pick(DIALECT_WORDS, i)
+    names = ['smiV2', 'smiV1', 'smiV1Relaxed']
+    d, first = pick(names, dialect), pick(names, warm)
+    with tok._untraced():
+        from pysmi.lexer.smi import lexerFactory
+        from pysmi.parser import dialect as _dl
+
+        def lex(name, text):
+            lx = lexerFactory(**getattr(_dl, name))()
+            lx.lexer.input(text)
+            out = []
+            while True:
+                t = lx.lexer.token()
+                if t is None:
+                    return out
+                out.append(t.type)
+        try:
+            lex(first, 'Warm NetworkAddress Counter')
+            got = lex(d, 'X ' + w)
+        except Exception:
+            return False
+    v1 = d != 'smiV2'
+    want = {'NetworkAddress': 'NETWORKADDRESS' if v1 else 'UPPERCASE_IDENTIFIER', 'Counter': 'COUNTER32', 'Gauge': 'GAUGE32', 'ACCESS': 'ACCESS',
+            'TRAP-TYPE': 'TRAP_TYPE', 'Integer32': 'INTEGER32', 'OBJECT-TYPE': 'OBJECT_TYPE', 'MyType': 'UPPERCASE_IDENTIFIER',
+            'ACCESSX': 'UPPERCASE_IDENTIFIER'}[w]
+    return got == ['UPPERCASE_IDENTIFIER', want]
+
+
 def lit_alphabet(s):
     for ch in s:
         if ch not in "'019aFhHbB ":
@@ -215,6 +253,9 @@ def conditions(prop, tier):
         out.append(dict(name='%s.lex.%s' % (prop, STATES[st]), fn='step', fixed=dict(st=st), timeout=t,
                         extra_pre=['len(s) <= %d' % n],
                         bounds='one token() call from state %s, symbolic line number, symbolic text of 0..%d characters' % (STATES[st], n)))
+    out.append(dict(name='%s.lex.dialect-words' % prop, fn='dialect_words', fixed={}, timeout=t,
+                    bounds='9 words that the dialects type differently or alike, under each of the three dialects, after a lexer of each of the three '
+                           'dialects was built and used first: token types as written down in the harness (keyword tables are not shared between dialects)'))
     if prop == 'C11':
         out.append(dict(name='C11.lex.forbidden-real-lexer', fn='forbidden_seq', fixed={}, timeout=t,
                         bounds='each of the %d ASN.1 keywords RFC 2578 forbids, after 0-3 other identifiers, in a SYNTAX / IMPORTS / type-name position, all three '
